@@ -249,6 +249,20 @@ impl NtPairs {
             cone.mul_W(MatrixShape::N, &mut y, x, 2.0, -1.0);
             let want: Vec<f64> = (0..n).map(|i| 2.0 * wx[i] - ytest[i]).collect();
             measure("mul_W-alpha-beta", relerr(&y, &want), ctx)?;
+            // the same accumulate form y = a Op x + b y for the transpose and for the inverse, both shapes
+            for (shape, inv) in [(MatrixShape::T, false), (MatrixShape::N, true), (MatrixShape::T, true)] {
+                let mut op = vec![0.0; n];
+                let mut y = ytest.clone();
+                if inv {
+                    cone.mul_Winv(shape, &mut op, x, 1.0, 0.0);
+                    cone.mul_Winv(shape, &mut y, x, -0.5, 3.0);
+                } else {
+                    cone.mul_W(shape, &mut op, x, 1.0, 0.0);
+                    cone.mul_W(shape, &mut y, x, -0.5, 3.0);
+                }
+                let want: Vec<f64> = (0..n).map(|i| -0.5 * op[i] + 3.0 * ytest[i]).collect();
+                measure(if inv { "mul_Winv-alpha-beta" } else { "mul_Wt-alpha-beta" }, relerr(&y, &want), ctx)?;
+            }
             // Hs x = W'(W x)
             let mut hx = vec![0.0; n];
             cone.mul_Hs(&mut hx, x, &mut work);
